@@ -218,3 +218,17 @@ func init() {
 		}
 	}}
 }
+
+func init() {
+	Registry["C16"] = Monitor{Run: RunC16, Replay: func(ctx *core.Ctx, rep *core.Report, w map[string]any) { RunC16(ctx, rep) }}
+}
+
+func init() {
+	Registry["C20"] = Monitor{Run: RunC20, Replay: func(ctx *core.Ctx, rep *core.Report, w map[string]any) {
+		if i, ok := witnessInt(w, "c20_file"); ok {
+			checkC20Indexed(ctx, i, rep)
+			return
+		}
+		RunC20(ctx, rep)
+	}}
+}
